@@ -288,12 +288,12 @@ class Ctx:
 
 
 def load_known():
-    p = os.path.join(VERIF, "known_findings.jsonl")
+    p = os.path.join(VERIF, "known_findings.txt")
     out = []
     if os.path.exists(p):
         for l in open(p):
             l = l.strip()
-            if l and not l.startswith("#"):
+            if l.startswith("{"):
                 out.append(json.loads(l))
     return out
 
